@@ -251,8 +251,14 @@ pub fn c09(ctx: &mut Ctx) -> R {
                                 }
                             }
                             Err(e) => {
-                                if new_flow_cfg.is_some() {
-                                    // a redirected request may be one that C17 refuses (inherited framing header)
+                                if let Some((m2, _)) = &new_flow_cfg {
+                                    // a redirected request may be one that C17 refuses (an inherited
+                                    // transfer-encoding header on what is now a body-less method)
+                                    let eff: Vec<crate::drive::Hdr> = crate::reqgen::grouped(&cfg.orig).into_iter().filter(|(n, _)| n != "cookie" && n != "content-length" && n != "authorization").collect();
+                                    let probe = crate::reqgen::ReqCfg { method: m2.clone(), version: cfg.version, uri: cfg.uri.clone(), orig: eff, added: vec![], despite: false, framing: crate::reqgen::Framing::None, expect: false };
+                                    if crate::reqgen::classify(&probe, 0).0 == crate::reqgen::Validity::Valid {
+                                        fail!("C09.redirected_flow_unusable", "", "the flow produced by as_new_flow ({} after a {}) refuses to write its request: {} (original request: {})", m2, plan.head.status, e, cfg.summary());
+                                    }
                                     ctx.count("p:redirected_request_refused");
                                     ctx.nontrivial = true;
                                     return Ok(());
